@@ -305,20 +305,30 @@ def _bounded_spans(self, cx):
         return (i, line, col)
 
     for prefix in ('', 'zz\n', '\n\nx '):
-        for w1, sep, w2, tail in [('ab', ' ', 'cd', ''), ('a', '\n', 'bcd', ' ef'), ('abc', ' \n ', 'd', '\nxyz 1'), ('q', ' ', 'r', ' s t')]:
+        for w1, sep, w2, tail in [('ab', ' ', 'cd', ''), ('a', '\n', 'bcd', ' ef'), ('abc', ' \n ', 'd', '\nxyz 1'), ('q', ' ', 'r', ' s t'), ('ab', ' ', 'cd', ' '), ('ab', ' ', 'cd', '\n\n')]:
             text = prefix + w1 + sep + w2 + tail
             k = len(prefix)
             for full in (False, True):
                 tried += 1
                 try:
+                    a0, a1 = k, k + len(w1) - 1
+                    b0 = k + len(w1) + len(sep)
+                    b1 = b0 + len(w2) - 1
+                    partial = None
                     try:
                         r = g.parse(text, pos=k, fullparse=full)
                     except g.PartialParseError as e:
                         r = e.partial_result
+                        partial = e
+                    # the three outcomes: input left over and fullparse -> PartialParseError exactly where the match ended; otherwise the value
+                    if full and tail:
+                        if partial is None:
+                            bad.append({'text': text, 'pos': k, 'what': 'input left over, fullparse: no PartialParseError'})
+                        elif tuple(partial.last_position) != pos_of(text, b1 + 1):
+                            bad.append({'text': text, 'pos': k, 'what': 'last_position is not where the match ended', 'got': tuple(partial.last_position), 'want': pos_of(text, b1 + 1)})
+                    elif partial is not None:
+                        bad.append({'text': text, 'pos': k, 'fullparse': full, 'what': 'PartialParseError although nothing is left over / fullparse is off'})
                     pair = r[0]
-                    a0, a1 = k, k + len(w1) - 1
-                    b0 = k + len(w1) + len(sep)
-                    b1 = b0 + len(w2) - 1
                     want = {'pair': (pos_of(text, a0), pos_of(text, b1)), 'a': (pos_of(text, a0), pos_of(text, a1)),
                             'b': (pos_of(text, b0), pos_of(text, b1))}
                     got = {'pair': pair._metadata.position_info, 'a': pair.a._metadata.position_info, 'b': pair.b._metadata.position_info}
@@ -339,7 +349,7 @@ def _bounded_spans(self, cx):
                             bad.append({'text': text, 'pos': k, 'fullparse': full, 'instance': 'ahead (lookahead past the final position)', 'got': repr(ah), 'want': wa})
                 except Exception as e:
                     bad.append({'text': text, 'pos': k, 'fullparse': full, 'raised': repr(e)})
-    return bad, tried, '3 prefixes x 4 token layouts x fullparse in {False, True}: nested / memoised / lookahead / zero-width instances, multi-line, non-zero pos'
+    return bad, tried, '3 prefixes x 6 token layouts x fullparse in {False, True}: the three outcomes of parse (value / PartialParseError exactly where the match ended), nested / memoised / lookahead / zero-width instances, multi-line, non-zero pos'
 
 
 FinalizeC.bounded = _bounded_spans
